@@ -5,7 +5,7 @@ import KanidmModel.SessionPlugin
 State ops (reply `ok`):
   `reset` · `acct a c|-` (fresh entry with that primary credential)
   `w a ct cid <mod>` — one local modify = modlist then plugin; `<mod>` is one of
-     `prim c|-` · `pk+ c` · `pk- c` · `apk+ c` · `apk- c` · `o2c c|-`
+     `prim c|-` · `upd fresh` · `pk+ c` · `pk- c` · `apk+ c` · `apk- c` · `o2c c|-`
      `rec s cred exp|- issued` · `rev s` · `purge` · `grant o parent|- exp|- issued` · `revo2 o` · `touch`
 Queries:
   `uats a`  → `absent` | `-` | `k:E<exp>|N|R:cred,…` (sorted by session id)
@@ -40,6 +40,7 @@ def showO2 (e : Nat × Sess) : String :=
 
 def parseMod : List String → Option Mod
   | ["prim", c] => (optNat? c).map .setPrimary
+  | ["upd", c] => (nat? c).map .updatePrimary
   | ["pk+", c] => (nat? c).map .addPasskey
   | ["pk-", c] => (nat? c).map .delPasskey
   | ["apk+", c] => (nat? c).map .addAttested
